@@ -499,7 +499,7 @@ theorem C13_oracle_accepts_exact (inp : Input) (hv : Valid inp) (m : Out) (hm : 
         simp only
         obtain ⟨sr, er, hsr0, hsrr⟩ := ersd _ hr
         rw [er]
-        exact chkRoot_exact _ _ _ _ hsr0 hsrr (residTolOf_nonneg _ _ _ _ _)
+        exact chkRoot_exact _ _ _ _ hsr0 hsrr (residBand_brackets _ _ _ _ _ _ hsr0)
       · have hok' : setPBok inp.nsamp P B = false := by simpa using hok
         rw [if_pos (by simp [hok'])]
 
